@@ -1,4 +1,6 @@
 import DeapModel.Core.GpCompile
+import DeapModel.Core.GpGraph
+import DeapModel.Core.GpSemantic
 import Driver.C11
 /-!
 Protocol handler for C12 (GP printing / parsing / compilation).
@@ -17,6 +19,8 @@ pyparse src                      → dump of `PyLang.parseExpr src`, or `none`
 pysound src dump|none            → `sound` when the model rejects `src` or returns exactly `dump`, else `unsound:<dump>`
 pyeval funs vars hasargs src tuples   → values of `PyLang.evalSrc` (parse the text, evaluate the AST in the namespace)
 pyadf tuples (name args funs vars src)*   → values of `pyCompileADFSrc` (compileADF through the source texts)
+graph nodes                      → `<edges> <labels>` of `gp.graph`: edges `i.j,…` (`-` = none), labels percent-encoded
+semden mut|cx funs vars args pieces trees… text tuples → values of the model's semantic offspring and of the closed formula
 srcok args nodes                 → `1` iff the hypotheses of `C12.parse_compileSrc` hold (`wf`, `ArgsOK`, `SrcOK`)
 -/
 namespace DriverC12
@@ -239,6 +243,32 @@ def parsePySets : List String → Option (List (PyCPset × Str))
     some ((⟨name, args, mkPyEnv f v⟩, s) :: more)
   | _ => none
 
+
+/-! ### `gp.graph`, denotation of the semantic offspring -/
+
+def showEdges (l : List (Nat × Nat)) : String :=
+  if l.isEmpty then "-" else ",".intercalate (l.map (fun e => toString e.1 ++ "." ++ toString e.2))
+
+/-- a float prints as `f:<bits>` here (compared with a tolerance: the logistic function goes through `exp`) -/
+def showResT : Option Val → String
+  | some (.flt x) => showFloat x
+  | some v => showVal v
+  | none => "none"
+
+def piecesOf : List Prim → Option SemPieces
+  | [lf, mul, add, sub] => some ⟨lf, mul, add, sub⟩
+  | _ => none
+
+def call1 (env : Env) (p : Prim) (a : Option Val) : Option Val :=
+  match env.funs p.name.toList, a with
+  | some f, some x => f [x]
+  | _, _ => none
+
+def call2 (env : Env) (p : Prim) (a b : Option Val) : Option Val :=
+  match env.funs p.name.toList, a, b with
+  | some f, some x, some y => f [x, y]
+  | _, _, _ => none
+
 def handle : List String → String
   | ["str", nodes] =>
     match parseNodes nodes with
@@ -331,6 +361,59 @@ def handle : List String → String
       match pyCompileADFSrc pts with
       | some f => ",".intercalate (tu.map (fun vals => showRes (f vals)))
       | none => "none"
+    | none => "bad-op"
+  | ["graph", nodes] =>
+    match parseNodes nodes with
+    | some l => showEdges (graphEdges l) ++ " " ++ showList (fun x => encodeText x.toList) (graphLabels l) ++ " " ++
+        toString (graphNodes l).length
+    | none => "bad-op"
+  | ["semden", "mut", funs, vars, args, pieces, ind, tr1, tr2, text, tuples] =>
+    -- the child the MODEL builds from the parts, evaluated, and `ind + ms * (lf(tr1) - lf(tr2))` from the parts' values
+    match (do let f ← parseAssoc some funs; let v ← parseAssoc parseVal vars; let a ← parseNames args
+              let pc ← (parseNodes pieces).bind piecesOf
+              let ti ← (parseNodes ind).bind parseTree; let t1 ← (parseNodes tr1).bind parseTree
+              let t2 ← (parseNodes tr2).bind parseTree; let tx ← decodeText text
+              let tu ← parseTuples tuples; pure (f, v, a, pc, ti, t1, t2, tx, tu)) with
+    | some (f, v, a, pc, ti, t1, t2, tx, tu) =>
+      let env := mkEnv f v
+      let msN := constNode (String.ofList tx)
+      let child := semMutList pc msN (flatten ti) (flatten t1) (flatten t2)
+      match parseTree child with
+      | none => "none"
+      | some tc =>
+        ",".intercalate (tu.map (fun vals => showResT (compile env a tc vals))) ++ "|" ++
+        ",".intercalate (tu.map (fun vals =>
+          let e := { env with vars := bindArgs a vals env.vars, funs := shadowFuns a vals env.funs }
+          showResT (call2 e pc.add (compile env a ti vals)
+            (call2 e pc.mul (env.lit tx) (call2 e pc.sub (call1 e pc.lf (compile env a t1 vals))
+              (call1 e pc.lf (compile env a t2 vals)))))))
+    | none => "bad-op"
+  | ["semden", "cx", funs, vars, args, pieces, ind1, ind2, tr, text, tuples] =>
+    match (do let f ← parseAssoc some funs; let v ← parseAssoc parseVal vars; let a ← parseNames args
+              let pc ← (parseNodes pieces).bind piecesOf
+              let ta ← (parseNodes ind1).bind parseTree; let tb ← (parseNodes ind2).bind parseTree
+              let t ← (parseNodes tr).bind parseTree; let tx ← decodeText text
+              let tu ← parseTuples tuples; pure (f, v, a, pc, ta, tb, t, tx, tu)) with
+    | some (f, v, a, pc, ta, tb, t, tx, tu) =>
+      let env := mkEnv f v
+      let one := constNode (String.ofList tx)
+      let c1 := semCxList pc one (flatten ta) (flatten tb) (flatten t)
+      let c2 := semCxList pc one (flatten tb) c1 (flatten t)
+      match parseTree c1, parseTree c2 with
+      | some t1, some t2 =>
+        let form (vals : List Val) : Option Val × Option Val :=
+          let e := { env with vars := bindArgs a vals env.vars, funs := shadowFuns a vals env.funs }
+          let r := call1 e pc.lf (compile env a t vals)
+          let av := compile env a ta vals
+          let bv := compile env a tb vals
+          let w := call2 e pc.sub (env.lit tx) r
+          let v1 := call2 e pc.add (call2 e pc.mul av r) (call2 e pc.mul w bv)
+          (v1, call2 e pc.add (call2 e pc.mul bv r) (call2 e pc.mul w v1))
+        ",".intercalate (tu.map (fun vals => showResT (compile env a t1 vals))) ++ "|" ++
+        ",".intercalate (tu.map (fun vals => showResT (compile env a t2 vals))) ++ "|" ++
+        ",".intercalate (tu.map (fun vals => showResT (form vals).1)) ++ "|" ++
+        ",".intercalate (tu.map (fun vals => showResT (form vals).2))
+      | _, _ => "none"
     | none => "bad-op"
   | ["srcok", args, nodes] =>
     match (do let a ← parseNames args; let l ← parseNodes nodes; pure (a, l)) with
